@@ -249,6 +249,15 @@ class Renderer:
             return None
         if c[0] == "call":
             name = str(c[1]).rsplit("::", 1)[-1]
+            if name in ("is_some", "is_none") and c[2]:
+                b0 = c[2][0]
+                const = None
+                if og.nf_str(b0) == "None" or (b0[0] == "const" and b0[1].endswith("None")):
+                    const = False
+                elif b0[0] == "call" and b0[1] == "Some":
+                    const = True
+                if const is not None:
+                    return const if name == "is_some" else not const
             if name == "is_some":
                 return self._bool("some:" + self.path(c[2][0]), c, True)
             if name == "is_none":
